@@ -1,7 +1,13 @@
 package main
 
 import (
+	"bytes"
+	"go/ast"
+	"go/constant"
+	"go/printer"
+	"go/token"
 	"go/types"
+	"strings"
 
 	"golang.org/x/tools/go/packages"
 )
@@ -63,6 +69,91 @@ func rfField(p *packages.Package, st *types.Struct, sname, fname string) (off, l
 	return
 }
 
+// rfFuncDecl finds a package-level function (no receiver).
+func rfFuncDecl(p *packages.Package, name string) *ast.FuncDecl {
+	for _, f := range p.Syntax {
+		for _, d := range f.Decls {
+			if fd, ok := d.(*ast.FuncDecl); ok && fd.Recv == nil && fd.Name.Name == name && fd.Body != nil {
+				return fd
+			}
+		}
+	}
+	fatal("%s: no function %s", p.PkgPath, name)
+	return nil
+}
+
+func rfExprText(p *packages.Package, e ast.Expr) string {
+	var buf bytes.Buffer
+	_ = printer.Fprint(&buf, p.Fset, e)
+	return buf.String()
+}
+
+// rfCountGuard reads the first `if <ident> > c` / `if <ident> >= c` of a function whose left operand is
+// the variable assigned from cmsys.GetNumRecords: the limit (evaluated by the type checker, so a literal
+// and a named constant read the same) and whether the comparison is strict.
+func rfCountGuard(p *packages.Package, fn string) (limit int64, strict bool) {
+	fd := rfFuncDecl(p, fn)
+	found := false
+	ast.Inspect(fd.Body, func(n ast.Node) bool {
+		if found {
+			return false
+		}
+		is, ok := n.(*ast.IfStmt)
+		if !ok {
+			return true
+		}
+		be, ok := is.Cond.(*ast.BinaryExpr)
+		if !ok || (be.Op != token.GTR && be.Op != token.GEQ) {
+			return true
+		}
+		id, ok := be.X.(*ast.Ident)
+		if !ok || id.Name != "n" {
+			return true
+		}
+		tv, ok := p.TypesInfo.Types[be.Y]
+		if !ok || tv.Value == nil {
+			return true
+		}
+		v, ok := constant.Int64Val(constant.ToInt(tv.Value))
+		if !ok {
+			return true
+		}
+		limit, strict, found = v, be.Op == token.GTR, true
+		return false
+	})
+	if !found {
+		fatal("%s.%s: no `if n > c` / `if n >= c` guard on the record count", p.PkgPath, fn)
+	}
+	return
+}
+
+// rfSubstituteIndex returns the text of the index argument addBoardRecord hands to cmsys.SubstituteRecord.
+func rfSubstituteIndex(p *packages.Package, fn string) string {
+	fd := rfFuncDecl(p, fn)
+	text := ""
+	ast.Inspect(fd.Body, func(n ast.Node) bool {
+		call, ok := n.(*ast.CallExpr)
+		if !ok {
+			return true
+		}
+		if sel, ok := call.Fun.(*ast.SelectorExpr); ok && sel.Sel.Name == "SubstituteRecord" && len(call.Args) == 4 && text == "" {
+			text = rfExprText(p, call.Args[3])
+		}
+		return true
+	})
+	if text == "" {
+		fatal("%s.%s: no call of SubstituteRecord", p.PkgPath, fn)
+	}
+	return text
+}
+
+func rfBool(b bool) string {
+	if b {
+		return "true"
+	}
+	return "false"
+}
+
 func init() {
 	register("RecFile", func(l *loader, repo, out string) {
 		pt := l.load("ptttype")
@@ -92,6 +183,22 @@ func init() {
 		}
 		lf.natList("fnSafeDel", mark)
 		lf.nat("MAX_RECOMMENDS", constInt(pt, "MAX_RECOMMENDS"))
+		lf.raw("\n/-! callers of the record primitives: ptt.addBoardRecord (.BRD) and the .DIR.bottom count guards in cache -/\n")
+		lf.nat("MAX_BOARD", constInt(pt, "MAX_BOARD"))
+		idx := rfSubstituteIndex(pp, "addBoardRecord")
+		lf.raw("/-- the index expression addBoardRecord passes to SubstituteRecord -/\n")
+		lf.raw("def addBoardIndexExpr : String := \"" + strings.ReplaceAll(idx, "\"", "\\\"") + "\"\n")
+		lf.raw("/-- it converts the 1-based board id to the 0-based record index (`bid.ToBidInStore()`) -/\n")
+		lf.raw("def addBoardIndexIsStoreIndex : Bool := " + rfBool(idx == "int32(bid.ToBidInStore())") + "\n")
+		pc := l.load("cache")
+		lim, strict := rfCountGuard(pc, "SetBottomTotal")
+		lf.raw("/-- cache.SetBottomTotal unlinks .DIR.bottom when the count is `> limit` (strict) or `>= limit` -/\n")
+		lf.nat("setBottomLimit", lim)
+		lf.raw("def setBottomStrict : Bool := " + rfBool(strict) + "\n")
+		lim, strict = rfCountGuard(pc, "reloadCacheLoadBottom")
+		lf.raw("/-- cache.reloadCacheLoadBottom clamps the cached count when it is `> limit` (strict) or `>= limit` -/\n")
+		lf.nat("reloadBottomLimit", lim)
+		lf.raw("def reloadBottomStrict : Bool := " + rfBool(strict) + "\n")
 		lf.write(out)
 	})
 }
